@@ -3,6 +3,8 @@
 #include "run/plan.h"
 #include "sim/kernel.h"
 #include "sim/simalloc.h"
+#include "sim/peek.h"
+#include <ksi/tree_builder.h>
 #include <algorithm>
 #include <memory>
 #include <optional>
@@ -18,7 +20,7 @@ static const int64_t EPOCH_MS = 1600000000000LL;
 // ----------------------------------------------------------------------------------------------------------------------
 // C16: reference forest
 
-struct RNode { std::string imp; int level = 0; };
+struct RNode { std::string imp; int level = 0; bool md = false; };   // imp: imprint, or the metadata payload bytes of a metadata leaf
 
 static RNode rjoin(const RNode &l, const RNode &r, int alg) {
 	RNode n;
@@ -58,7 +60,8 @@ struct RefForest {
 	}
 };
 
-static bool chain_of(KSI_AggregationHashChain *ch, AggChain &out) {
+static bool chain_of(KSI_CTX *ctx, KSI_AggregationHashChain *ch, AggChain &out) {
+	(void)ctx;
 	KSI_LIST(KSI_HashChainLink) *links = nullptr;
 	KSI_DataHash *in = nullptr; KSI_Integer *alg = nullptr;
 	if (KSI_AggregationHashChain_getChain(ch, &links) != KSI_OK || KSI_AggregationHashChain_getInputHash(ch, &in) != KSI_OK || KSI_AggregationHashChain_getAggrHashId(ch, &alg) != KSI_OK) return false;
@@ -72,11 +75,36 @@ static bool chain_of(KSI_AggregationHashChain *ch, AggChain &out) {
 		KSI_HashChainLink_getIsLeft(l, &isLeft);
 		KSI_HashChainLink_getLevelCorrection(l, &lc);
 		KSI_HashChainLink_getImprint(l, &imp);
-		if (!imp) return false; // metadata / legacy siblings are not produced by the histories generated here
-		k.left = isLeft; k.lc = lc ? KSI_Integer_getUInt64(lc) : 0; k.kind = 0; k.sib = sdk::imprint_of(imp);
+		k.left = isLeft; k.lc = lc ? KSI_Integer_getUInt64(lc) : 0;
+		if (imp) { k.kind = 0; k.sib = sdk::imprint_of(imp); }
+		else {
+			static unsigned char buf[0x10000];
+			size_t n = peek_link_metadata(l, buf, sizeof buf);
+			if (!n) return false; // legacy-id siblings are not produced by the histories generated here
+			k.kind = 2; k.sib.assign((char *)buf, n);
+		}
 		out.links.push_back(k);
 	}
 	return true;
+}
+
+static KSI_MetaData *make_metadata(KSI_CTX *ctx, const std::string &client, const std::string &machine, int64_t seq, int64_t req_time) {
+	KSI_MetaData *md = nullptr;
+	if (KSI_MetaData_new(ctx, &md) != KSI_OK) return nullptr;
+	KSI_Utf8String *u = nullptr;
+	KSI_Utf8String_new(ctx, client.c_str(), client.size() + 1, &u); KSI_MetaData_setClientId(md, u);
+	if (!machine.empty()) { u = nullptr; KSI_Utf8String_new(ctx, machine.c_str(), machine.size() + 1, &u); KSI_MetaData_setMachineId(md, u); }
+	if (seq >= 0) { KSI_Integer *i = nullptr; KSI_Integer_new(ctx, (KSI_uint64_t)seq, &i); KSI_MetaData_setSequenceNr(md, i); }
+	if (req_time >= 0) { KSI_Integer *i = nullptr; KSI_Integer_new(ctx, (KSI_uint64_t)req_time, &i); KSI_MetaData_setRequestTimeInMicros(md, i); }
+	return md;
+}
+
+// metadata variant v (> 0) of leaf n: which optional fields are present
+static void md_fields(uint64_t seed, uint64_t n, int64_t v, std::string &client, std::string &machine, int64_t &seq, int64_t &req_time) {
+	client = "cl-" + std::to_string(seed % 1000) + "-" + std::to_string(n) + std::string((size_t)(v % 3), 'x');
+	machine = (v & 2) ? "machine-" + std::to_string(n) : "";
+	seq = (v & 4) ? (int64_t)n : -1;
+	req_time = (v & 8) ? (int64_t)(1600000000000000LL + (int64_t)n) : -1;
 }
 
 struct TreeSim {
@@ -87,7 +115,7 @@ struct TreeSim {
 	bool nontrivial = false;
 	explicit TreeSim(const run::Plan &p) : plan(p) {}
 
-	struct Leaf { KSI_TreeLeafHandle *h = nullptr; std::string imp; int level = 0; };
+	struct Leaf { KSI_TreeLeafHandle *h = nullptr; std::string imp; int level = 0; bool md = false; };
 
 	void tree_history() {
 		int alg = plan.c("alg", 1) == 5 ? 5 : 1;
@@ -104,21 +132,32 @@ struct TreeSim {
 			if (op.k == "TB_ADD" && !closed) {
 				int level = (int)op.arg(0);
 				Leaf lf; lf.level = level;
-				lf.imp = imprint(op.arg(1) % 5 == 4 ? 5 : 1, "tb-leaf-" + std::to_string(plan.seed) + "-" + std::to_string(n++));
-				KSI_DataHash *dh = sdk::hash_from_imprint(ctx, lf.imp);
+				int64_t mdv = op.arg(3) % 16;       // > 0: a metadata leaf with this field variant
+				KSI_DataHash *dh = nullptr; KSI_MetaData *md = nullptr;
+				if (mdv > 0) {
+					std::string cl, ma; int64_t sq, rt;
+					md_fields(plan.seed, n++, mdv, cl, ma, sq, rt);
+					lf.imp = metadata_payload_full(cl, ma, sq, rt); lf.md = true;
+					md = make_metadata(ctx, cl, ma, sq, rt);
+					K.count("probe.metadata_leaf");
+				} else {
+					lf.imp = imprint(op.arg(1) % 5 == 4 ? 5 : 1, "tb-leaf-" + std::to_string(plan.seed) + "-" + std::to_string(n++));
+					dh = sdk::hash_from_imprint(ctx, lf.imp);
+				}
 				// would the model accept it?
 				RefForest trial = model;
 				bool fits = level >= 0 && level <= 255;
 				if (fits && maxlvl > 0 && (level > maxlvl || model.highest(level) > maxlvl)) fits = false;
-				if (fits) { RNode nd; nd.imp = lf.imp; nd.level = level; fits = trial.insert(nd); }
+				if (fits) { RNode nd; nd.imp = lf.imp; nd.level = level; nd.md = lf.md; fits = trial.insert(nd); }
 				if (fits) { RNode r; fits = trial.root(r) || true; }
 				int fail_idx = (int)op.arg(2); // > 0: the n-th allocation inside this add fails
 				if (fail_idx > 0) { A.reset_counter(); A.fail_at = {(uint64_t)fail_idx}; A.armed = true; }
-				int res = KSI_TreeBuilder_addDataHash(b, dh, level, &lf.h);
+				int res = md ? KSI_TreeBuilder_addMetaData(b, md, level, &lf.h) : KSI_TreeBuilder_addDataHash(b, dh, level, &lf.h);
 				bool fired = A.fired > 0;
 				A.armed = false; A.fail_at.clear();
 				KSI_DataHash_free(dh);
-				K.ev("TB_ADD level=%d -> 0x%x%s", level, res, fired ? " (allocation failed)" : "");
+				KSI_MetaData_free(md);
+				K.ev("TB_ADD level=%d%s -> 0x%x%s", level, lf.md ? " metadata" : "", res, fired ? " (allocation failed)" : "");
 				if (fired) { nontrivial = true; K.count("fault.alloc_fail_in_add"); }
 				if (res == KSI_OK) {
 					if (!fits) { K.fail("C16", "leaf-accepted-beyond-limits", "tree-builder", "a leaf of level %d was accepted although the tree would exceed the maximum level / level range", level); break; }
@@ -142,15 +181,17 @@ struct TreeSim {
 				if (!ok) { K.fail("C16", "closed-beyond-level-range", "tree-builder", "the tree was closed although its root level leaves 0..255"); break; }
 				std::string got = sdk::imprint_of(b->rootNode ? b->rootNode->hash : nullptr);
 				int glevel = b->rootNode ? (int)b->rootNode->level : -1;
+				if (want.md) got = want.imp; // a tree of one metadata leaf has no root hash to compare
 				if (got != want.imp || glevel != want.level) { K.fail("C16", "root-differs-from-canonical-forest", "tree-builder", "builder root (level %d) differs from the canonical left-to-right merge (level %d)", glevel, want.level); break; }
 				// every accepted leaf proves to the root
 				for (size_t i = 0; i < leaves.size(); i++) {
 					KSI_AggregationHashChain *ch = nullptr;
 					int r2 = KSI_TreeLeafHandle_getAggregationChain(leaves[i].h, &ch);
+					if (leaves[i].md) { K.ev("metadata leaf %zu: getAggregationChain -> 0x%x", i, r2); KSI_AggregationHashChain_free(ch); continue; } // not the input of a hash chain
 					if (r2 != KSI_OK) { K.fail("C16", "chain-extraction-failed", "tree-builder", "leaf %zu: getAggregationChain failed with 0x%x", i, r2); break; }
 					AggChain ac;
 					std::string out; int el = 0;
-					bool good = chain_of(ch, ac) && ac.input == leaves[i].imp && (leaves.size() == 1 || fold_agg(ac, leaves[i].level, out, el));
+					bool good = chain_of(ctx, ch, ac) && ac.input == leaves[i].imp && (leaves.size() == 1 || fold_agg(ac, leaves[i].level, out, el));
 					if (leaves.size() == 1) { out = leaves[i].imp; el = leaves[i].level; good = good || true; if (!ac.links.empty()) good = fold_agg(ac, leaves[i].level, out, el); }
 					KSI_AggregationHashChain_free(ch);
 					if (!good || out != want.imp || el != want.level) { K.fail("C16", "leaf-chain-does-not-prove-root", "tree-builder", "leaf %zu (level %d): its aggregation chain does not recompute the root (got level %d, want %d)", i, leaves[i].level, el, want.level); break; }
@@ -182,17 +223,33 @@ struct TreeSim {
 			int level = (int)op.arg(0);
 			KSI_DataHash *dh = sdk::hash_from_imprint(ctx, imp);
 			KSI_BlockSignerHandle *h = nullptr;
-			int res = KSI_BlockSigner_addLeaf(bs, dh, level, NULL, &h);
+			int64_t mdv = op.arg(2) % 16;            // > 0: per-leaf metadata with this field variant
+			KSI_MetaData *md = nullptr;
+			RNode mdnode; mdnode.md = true; mdnode.level = level;
+			if (mdv > 0) {
+				std::string cl, ma; int64_t sq, rt;
+				md_fields(plan.seed, (uint64_t)op.arg(1), mdv, cl, ma, sq, rt);
+				mdnode.imp = metadata_payload_full(cl, ma, sq, rt);
+				md = make_metadata(ctx, cl, ma, sq, rt);
+				K.count("probe.leaf_with_metadata");
+			}
+			int res = KSI_BlockSigner_addLeaf(bs, dh, level, md, &h);
 			KSI_DataHash_free(dh);
-			K.ev("%s BS_ADD level=%d -> 0x%x", tag, level, res);
+			KSI_MetaData_free(md);
+			K.ev("%s BS_ADD level=%d%s -> 0x%x", tag, level, mdv > 0 ? " +metadata" : "", res);
 			RNode leaf; leaf.imp = imp; leaf.level = level;
 			RNode node = leaf;
 			bool fits = level >= 0 && level <= 255;
 			std::string nprev = prev;
-			if (fits && masking) {
-				RNode mask; mask.level = level; mask.imp = imprint(1, prev + ivb);
+			// the metadata element is joined first (it must be the first link), the blinding mask second
+			if (fits && mdv > 0) {
 				if (level + 1 > 255) fits = false;
-				else { node = rjoin(mask, leaf, 1); nprev = node.imp; }
+				else node = rjoin(mdnode, node, 1);
+			}
+			if (fits && masking) {
+				RNode mask; mask.level = node.level; mask.imp = imprint(1, prev + ivb);
+				if (node.level + 1 > 255) fits = false;
+				else { node = rjoin(mask, node, 1); nprev = node.imp; }
 			}
 			RefForest trial = model;
 			if (fits) fits = trial.insert(node);
@@ -264,8 +321,11 @@ struct TreeSim {
 			for (auto &op : ops) {
 				KSI_DataHash *dh = sdk::hash_from_imprint(ctx, imprint(1, std::string("bs-leaf-") + std::to_string(plan.seed) + "-" + std::to_string(op.arg(1))));
 				KSI_BlockSignerHandle *h = nullptr;
-				int res = KSI_BlockSigner_addLeaf(bs, dh, (int)op.arg(0), NULL, keep ? &h : NULL);
+				KSI_MetaData *md = nullptr;
+				if (op.arg(2) % 16 > 0) { std::string cl, ma; int64_t sq, rt; md_fields(plan.seed, (uint64_t)op.arg(1), op.arg(2) % 16, cl, ma, sq, rt); md = make_metadata(ctx, cl, ma, sq, rt); }
+				int res = KSI_BlockSigner_addLeaf(bs, dh, (int)op.arg(0), md, keep ? &h : NULL);
 				KSI_DataHash_free(dh);
+				KSI_MetaData_free(md);
 				K.ev("reset-signer BS_ADD level=%lld -> 0x%x", (long long)op.arg(0), res);
 				if (h) keep->push_back(h);
 			}
@@ -538,6 +598,7 @@ struct HistoryEngine : run::Engine {
 			int mode = (int)g.below(3) == 0 ? 1 : 0;
 			p.cfg["mode"] = mode;
 			p.cfg["alg"] = g.chance(1, 5) ? 5 : 1;
+			bool with_md = g.chance(1, 2);
 			if (mode == 0) {
 				p.cfg["maxlevel"] = g.chance(1, 2) ? 0 : (int64_t)g.range(1, 12);
 				int n = (int)(g.chance(1, 2) ? g.range(1, 64) : g.range(1, tier ? 300 : 40));
@@ -546,7 +607,7 @@ struct HistoryEngine : run::Engine {
 				int lv0 = (int)(g.chance(1, 5) ? g.range(0, 255) : g.range(0, 3));
 				for (int i = 0; i < n; i++) {
 					int level = uniform ? lv0 : (int)(g.chance(1, 8) ? g.range(0, 255) : g.range(0, 6));
-					p.ops.push_back({"TB_ADD", {level, (int64_t)g.below(50), faulty && g.chance(1, 6) ? (int64_t)g.range(1, 12) : 0}});
+					p.ops.push_back({"TB_ADD", {level, (int64_t)g.below(50), faulty && g.chance(1, 6) ? (int64_t)g.range(1, 12) : 0, with_md && g.chance(1, 4) ? (int64_t)g.range(1, 15) : 0}});
 					if (g.chance(1, 40)) p.ops.push_back({"TB_CLOSE", {}});
 				}
 				p.ops.push_back({"TB_CLOSE", {}});
@@ -560,7 +621,7 @@ struct HistoryEngine : run::Engine {
 				int reset_at = (int)g.below((uint64_t)n + 1);
 				for (int i = 0; i < n; i++) {
 					if (with_reset && i == reset_at) p.ops.push_back({"BS_RESET", {}});
-					p.ops.push_back({"BS_ADD", {(int64_t)(g.chance(1, 10) ? g.range(0, 255) : g.range(0, 3)), i}});
+					p.ops.push_back({"BS_ADD", {(int64_t)(g.chance(1, 10) ? g.range(0, 255) : g.range(0, 3)), i, with_md && g.chance(1, 3) ? (int64_t)g.range(1, 15) : 0}});
 				}
 				if (with_reset && reset_at == n) p.ops.push_back({"BS_RESET", {}});
 			}
